@@ -175,15 +175,15 @@ pub fn compare(exp: &Expected, out: &Outcome) -> Result<(), (String, J)> {
     }
 }
 
-/// Known finding `optimiser:data-cast-check-elided`: under silent tracing `expect x: Int = d`
+/// Known finding `optimiser:data-cast-check-elided`: under silent or compact compiler-generated traces `expect x: Int = d`
 /// lowers to `unIData d`; when `x` is then only cast back to Data the optimiser cancels
 /// `iData (unIData d)` to `d` and the failure for a `d` of another kind disappears. Recognised by:
-/// silent tracing, the model aborts on exactly that primitive-kind check, the program handed to the
+/// non-verbose tracing, the model aborts on exactly that primitive-kind check, the program handed to the
 /// optimiser aborts, the optimised one returns.
 pub const KNOWN_CAST_ELISION: &str = "optimiser:data-cast-check-elided";
 
 pub fn known_cast_elision(exp: &Expected, out: &Outcome, compiled: &Compiled, args: &[uplc::PlutusData], tracing: Tracing) -> Option<&'static str> {
-    if !matches!(tracing.trace_level(true), TraceLevel::Silent) {
+    if matches!(tracing.trace_level(true), TraceLevel::Verbose) {
         return None;
     }
     if !matches!(exp, Expected::Abort(r) if *r == crate::model::interp::CAST_PRIM_KIND) || !matches!(out, Outcome::Value(_)) {
